@@ -205,10 +205,13 @@ ASSUMPTIONS = [
 
 MUTANTS = [
     dict(file=INF, func="Hook.__wrapped_posthook", old="if self.trainexec and module.training:", new="if self.trainexec or module.training:", contracts=["Hook.lifecycle"]),
-    dict(file=INF, func="Hook.__wrapped_posthook", old="if self.evalexec and (not module.training):", new="elif self.evalexec and (not module.training):", contracts=["Hook.lifecycle"], expect="survives", name="control: elif is equivalent (the two conditions are exclusive on module.training)"),
+    dict(file=INF, func="Hook.__wrapped_posthook", old="        if self.evalexec and not module.training:", new="        elif self.evalexec and not module.training:", contracts=["Hook.lifecycle"], expect="survives", name="control: elif is equivalent (the two conditions are exclusive on module.training)"),
     dict(file=INF, func="Hook.deregister", old="        self.__posthook_handle = None\n", new="", contracts=["Hook.lifecycle"]),
     dict(file=INF, func="Hook.deregister", old="        self.__finalizer = None", new="        pass", contracts=["Hook.lifecycle"], expect="survives", name="control: keeping a detached finalizer object is harmless as long as register() replaces it"),
-    dict(file=INF, func="Hook.register", old="            if self.__finalizer:\n                self.__finalizer.detach()\n            self.__finalizer = weakref.finalize(\n                self, _detach_handles, self.__prehook_handle, self.__posthook_handle\n            )", new="            if not self.__finalizer:\n                self.__finalizer = weakref.finalize(\n                    self, _detach_handles, self.__prehook_handle, self.__posthook_handle\n                )", contracts=["Hook.lifecycle"], name="seed C16 (first hunk): finalizer created only once"),
+    dict(file=INF, func="Hook.register", old="            if self.__finalizer:\n                self.__finalizer.detach()\n            self.__finalizer = weakref.finalize(\n                self, _detach_handles, self.__prehook_handle, self.__posthook_handle\n            )", new="            if not self.__finalizer:\n                self.__finalizer = weakref.finalize(\n                    self, _detach_handles, self.__prehook_handle, self.__posthook_handle\n                )", contracts=["Hook.lifecycle"], expect="survives", name="control: seed C16 first hunk alone (finalizer created only when absent) is harmless while deregister() resets it"),
+    dict(file=INF, contracts=["Hook.lifecycle"], name="seed C16 (both hunks): finalizer created once and never reset",
+         edits=[dict(func="Hook.register", old="            if self.__finalizer:\n                self.__finalizer.detach()\n            self.__finalizer = weakref.finalize(\n                self, _detach_handles, self.__prehook_handle, self.__posthook_handle\n            )", new="            if not self.__finalizer:\n                self.__finalizer = weakref.finalize(\n                    self, _detach_handles, self.__prehook_handle, self.__posthook_handle\n                )"),
+                dict(func="Hook.deregister", old="        self.__finalizer = None", new="        pass")]),
     dict(file=INF, func="StateHook.forward", old="if self.registered or force:", new="if self.registered and force:", contracts=["StateHook.forward"]),
     dict(file=NH, func="Clamping.hook", old="torch.clamp(\n                rgetattr(self.module, self.attribute),", new="torch.clamp(\n                rgetattr(self.module, 'weight'),", contracts=["Clamping.hook"]),
     dict(file=MATH, func="normalize", old="return scale * F.normalize(data, p=order, dim=dim, eps=epsilon)", new="return F.normalize(data, p=order, dim=dim, eps=epsilon)", contracts=["Normalization.hook"]),
